@@ -186,6 +186,10 @@ func c17Run(t *testing.T, plan c17Plan, dir string, st map[string]int, desc *[]s
 			if stopSeen && len(s.w.lockLog) != commitsAtStop {
 				fail("a checkpoint was signed after the sequencer stopped (%s)", where)
 			}
+			// past the read-only date the next tick must stop the sequencer for good
+			if plan.ReadOnly > 0 && !stopSeen && time.Since(start) > time.Duration(plan.ReadOnly+10+1000+5)*time.Millisecond {
+				fail("the log is %v past its read-only date but the sequencer is still running (%s)", time.Since(start)-time.Duration(plan.ReadOnly+10)*time.Millisecond, where)
+			}
 			for _, w := range waiters {
 				done, le, err := w.outcome()
 				if !done {
@@ -208,7 +212,19 @@ func c17Run(t *testing.T, plan c17Plan, dir string, st map[string]int, desc *[]s
 			l.poolMu.Unlock()
 			m := model(cur)
 			key := e.dedupKey()
-			f, src := l.addLeafToPool(simInlineCtx(context.Background()), e.P, low)
+			var f waitEntryFunc
+			var src string
+			func() {
+				defer func() {
+					if r := recover(); r != nil {
+						fail("the server panicked while admitting entry %d (low=%v, pool %d/%d): %v", e.ID, low, m.occ, plan.PoolSize, r)
+					}
+				}()
+				f, src = l.addLeafToPool(simInlineCtx(context.Background()), e.P, low)
+			}()
+			if f == nil {
+				return
+			}
 			w := &c17Waiter{id: len(waiters), entry: e, low: low, src: src}
 			waiters = append(waiters, w)
 			go func() {
